@@ -1,6 +1,6 @@
 //go:build verif
 
-package oras
+package __PKG__
 
 import "oras.land/oras-go/v2/errdef"
 
